@@ -81,6 +81,13 @@ Calibration
   (shape, dtype, values) the finding is that mismatch with its own label, and the exception is kept as detail `later`
   (before, the operation of the first mismatch and the exception type of an unrelated later failure were combined into
   one label).
+* (round 2) A pipeline with an inexact floating step whose NumPy reference contains inf/NaN is rejected
+  (`reference_overflowed`): the sources hold no special values, so a float32 product overflowed in NumPy's evaluation
+  order and met a zero afterwards (nan); every other grouping of the same product gives 0 (seen: prod over 150 float32
+  values, both engines 0, NumPy nan).
+* (round 2) Auxiliary sources (second operands, parts of concatenate/stack) pass their dtype keyword as numpy.dtype; only
+  the source of the spine passes it as str (known finding: the str is kept as the lazy dtype), so that mechanism is
+  reported at one place.
 * (round 2) The rechunk-plan family keeps python-scalar elementwise steps away from int32/float32 arrays (known dtype
   finding, it would end the case before the rechunk).
 """
@@ -649,6 +656,20 @@ def _localise(case, pref, tol, upto=None):
     return None
 
 
+def _report_exception(ctx, case, k, pref, tol, names, ex, classic):
+    """An exception met at node k (or while the complete pipeline was evaluated).  The first node that is wrong in any way
+    on its own prefix is the mechanism: an exception is often the consequence of a wrong shape / dtype / block layout
+    further up, and then the finding is that mismatch, with the exception as detail."""
+    loc = _localise(case, pref, tol, upto=k)
+    if loc and not isinstance(loc[3], BaseException):
+        ctx.violation(_label(loc[1], case, loc[0], pref, loc[2]), loc[3], prefix_len=loc[0], ops=names[:loc[0] + 1],
+                      later="%s: %s" % (type(ex).__name__, str(ex)[:200]))
+    elif loc:
+        _exc_violation(ctx, case, loc[0], pref, loc[3], classic)
+    else:
+        _exc_violation(ctx, case, k, pref, ex, classic)
+
+
 def _run(case, ctx):
     box = {}
 
@@ -691,6 +712,12 @@ def _run2(case, ctx, classic):
             if q.size:
                 scale = max(scale, float(q.max()))
     tol = _tol_args(case, scale)
+    if not tol["exact"] and any(p.dtype.kind == "f" and p.size and not np.isfinite(p).all() for p in pref):
+        # the sources hold no NaN/inf: a floating product overflowed in NumPy's own evaluation order, and 0 * inf = nan
+        # depends on that order (another grouping of the same product gives 0)
+        ctx.count("reference_overflowed")
+        ctx.reject("numpy: the reference overflows in an order-dependent (inexact) pipeline")
+        return
 
     # 2. expression engine, step by step so that a raising step is known
     k = 0
@@ -731,16 +758,7 @@ def _run2(case, ctx, classic):
         ctx.unsupported("%s: %s" % (names[min(k, nsteps)], ex))
         return
     except Exception as ex:  # noqa: BLE001
-        # the first node that is wrong in any way on its own prefix is the mechanism: an exception here is often the
-        # consequence of a wrong shape / dtype / block layout further up
-        loc = _localise(case, pref, tol, upto=min(k, nsteps))
-        if loc and not isinstance(loc[3], BaseException):
-            ctx.violation(_label(loc[1], case, loc[0], pref, loc[2]), loc[3], prefix_len=loc[0], ops=names[:loc[0] + 1],
-                          later="%s: %s" % (type(ex).__name__, str(ex)[:200]))
-        elif loc:
-            _exc_violation(ctx, case, loc[0], pref, loc[3], classic)
-        else:
-            _exc_violation(ctx, case, min(k, nsteps), pref, ex, classic)
+        _report_exception(ctx, case, min(k, nsteps), pref, tol, names, ex, classic)
         return
     ctx.count("compared_with_numpy")
     ctx.sample = {"ops": names, "result_shape": list(v1.shape), "dtype": str(v1.dtype), "chunks": [list(c) for c in dx.chunks],
@@ -748,8 +766,7 @@ def _run2(case, ctx, classic):
     try:
         wrong = _cmp(v1, e, tol) or lazy_meta_mismatch(dx, v1)
     except Exception as ex:  # noqa: BLE001  (e.g. .dtype of an expression that lost its meta)
-        loc = _localise(case, pref, tol)
-        _exc_violation(ctx, case, loc[0] if loc else nsteps, pref, loc[3] if (loc and isinstance(loc[3], BaseException)) else ex, classic)
+        _report_exception(ctx, case, nsteps, pref, tol, names, ex, classic)
         return
     stage_wrong = []
     for stage, v in (("optimize", v2), ("lowered-unoptimized", v3)):
